@@ -891,8 +891,9 @@ def run(ck):
                     "instance name (theorems none_lost_false_lastWins, lastWins_keeps_last_only), 'merge' = every block kept (none_lost)")
     ck.assumptions += ['grammar/lexer of sdf.py: modelled (Model/SdfText.lean, round-trip theorem) and compared with lark on generated, hand-written and mutated texts; that lark implements the grammar as the model reads it is checked there, not proved',
                        'float(), NumPy fancy assignment and the Verilog reader are exercised through generated texts, not modelled',
-                       'the circuit is abstracted to two tables (line feeding a pin; fork line between two pins) exported from the real '
-                       'Circuit by structural search (reader/reader_pin, fork names), independent of sdf.py',
+                       'the look-ups are compared twice: through two tables (line feeding a pin; fork line between two pins) exported from the '
+                       'real Circuit by structural search (reader/reader_pin, fork names), independent of sdf.py, and through the modelled '
+                       'look-ups pinLook/icLook (Model/SdfCirc.lean) fed with the circuit dump and tlib.cells, per entry (line index / warn / raise)',
                        'several IOPATHs from one input pin to different outputs overwrite each other by design (one delay per line): '
                        'oracle streams keep one entry per coordinate; overlaps are covered by model correspondence only']
     return ck.finish(RULE)
